@@ -15,8 +15,11 @@ WORDS = ['get', 'set', 'has', 'is', 'clear', 'reset', 'make', 'find', 'add', 're
 NOUNS = ['transform', 'rate', 'anim', 'mutex', 'child', 'parent', 'state', 'color', 'name', 'value', 'size', 'index', 'node', 'path', 'bound', 'mask', 'flag', 'time']
 
 
+SIGNAME = {'short': 'short int', 'long': 'long int'}     # CPPSimpleType::get_local_name spells the int out
+
+
 def sig_text(cls, name, ptypes, const):
-    return '%s::%s(%s)%s' % (cls, name, ', '.join(ptypes), ' const' if const else '')
+    return '%s::%s(%s)%s' % (cls, name, ', '.join(SIGNAME.get(t, t) for t in ptypes), ' const' if const else '')
 
 
 def hashes(sigs, off=5):
